@@ -109,7 +109,7 @@ class C12(Prop):
     models = ("C12_Model",)
     packages = {"rs": "internal/app/referenceserver", "cc": "internal/app/connectconformance"}
     kinds = {"c12.seq": "rs", "c12.matrix": "rs", "c12.render": "rs", "c12.timeouts": "rs", "c12.wire": "rs",
-             "c12.events": "rs", "c12.live": "rs", "c12.runner": "cc", "c12.runlive": "cc"}
+             "c12.events": "rs", "c12.live": "rs", "c12.print": "rs", "c12.runner": "cc", "c12.runlive": "cc"}
     consts = ("rs",)
     rule = ("c12.matrix: the FULL matrix (in chunks of 36 renderings) of 648 announced set-ups (3 HTTP versions x GET/POST x 3 protocols x 2 codecs x 6 compressions x "
             "TLS off/on/on+client-cert) x 756 client renderings (3 versions x 7 wire shapes x 2 codecs x 6 compressions x 3 TLS modes) = "
@@ -240,7 +240,66 @@ class C12(Prop):
                 yield ["c12.timeouts", p, allv[i:i + 20]]
 
     def gen_seq(self, rng, tier):
-        n = 3000 if tier == "quick" else 60000
+        for seq in self._seqs(rng, 3000 if tier == "quick" else 60000, lambda: rng.choice(["t", "A/b", "x y"])):
+            yield ["c12.seq", seq]
+
+    # test names that would be read as a format if the printer ever used them as one: verbs, flags, "%%", explicit
+    # argument indexes, a trailing '%', the runner's own ": " (never attributed: it splits at the FIRST ": ")
+    PCT_NAMES = ["Percent Encoding/100%", "50%d", "%s", "%d", "%%", "%v/%v", "%!", "%", "%%%", "100%% sure", "Suite/%41%42/case",
+                 "a%!d(MISSING)", "%[1]d", "%[2]v %[1]v", "%-5d|", "%*d", "%T", "%x%X%q", "%+v %#v", "x%", "%d%d%d%d", "%s: %s", "q: %d",
+                 "%c%U", "tab\t%d", "%5.2f%%", " %d", "%d "]
+
+    def pct_name(self, rng):
+        k = rng.random()
+        if k < 0.55:
+            return rng.choice(self.PCT_NAMES)
+        if k < 0.85:    # from the rng: short strings over verbs, flags, digits, separators
+            return "".join(rng.choice("%%%%sdvqxT!#+-[]12 /:.ab") for _ in range(rng.randint(1, 8))).strip() or "%"
+        return rng.choice(["t", "A/b", "x y"])
+
+    def gen_print(self, rng, tier):
+        """c12.print: sequences on one handler over the REAL internal.NewPrinter (as run() wires it) - every name of
+        PCT_NAMES x every deviation whose message has format arguments (and some without), then random sequences
+        (the c12.seq perturbations) over such names."""
+        def dev(name, k):
+            r = render(1, 1, 0, 0, 0)
+            e = [1, 0, 0, 0, 0, 0]
+            if k == 0:
+                e[0] = 0                    # expected HTTP version %d; instead got %d
+            elif k == 1:
+                e[3] = 1                    # expected codec %v; instead got %v
+            elif k == 2:
+                e[4] = 3                    # expected compression %v; instead got %v
+            elif k == 3:
+                e[1] = 1                    # expected HTTP method %q, got %q
+            elif k == 4:
+                e[2] = 1                    # expected protocol %v; instead got %v
+            elif k == 5:
+                e[5] = 2                    # expecting TLS request ...: no arguments
+            r = expect(r, name, *e)
+            if k == 6:
+                r["xc"] = ["7"]             # invalid value for %q header: %d is not in range
+            elif k == 7:
+                r["xv"] = ["x"]             # invalid value for %q header: %q: %v
+            elif k == 8:
+                r["cto"] = ["+5"]           # invalid numeric value for %q header: %q
+            elif k == 9:
+                r["ct"] = r["ct"] * 2       # %s header appears %d times; should appear just once
+            elif k == 10:
+                r["trailers"] = 2           # ... (%d trailer keys found)
+            elif k == 11:                   # several lines at once, every aspect off
+                r = expect(render(0, 3, 1, 2, 1), name, 2, 1, 0, 0, 4, 0)
+            return req_sx(r)
+        for name in self.PCT_NAMES:
+            for k in range(12):
+                yield ["c12.print", [dev(name, k)]]
+            # the same test again (client sent another request (#%d) ...), another test in between, a matching request
+            other = rng.choice(self.PCT_NAMES)
+            yield ["c12.print", [dev(name, 0), dev(other, 1), dev(name, 12), dev(name, 3)]]
+        for seq in self._seqs(rng, 1500 if tier == "quick" else 30000, lambda: self.pct_name(rng)):
+            yield ["c12.print", seq]
+
+    def _seqs(self, rng, n, pick_name):
         weird_enum = ["0", "4", "7", "+1", "-1", "x", "", "01", "2147483647", "2147483648", "-2147483648", "-2147483649", "1 ", "1_0", "3"]
         weird_bool = ["1", "0", "t", "F", "TRUE", "True", "tRUE", "yes", "", "false ", "T", "f", "False", "FALSE"]
         cts = ["application/grpc", "application/grpc+", "application/grpc+proto", "application/grpc-web", "application/grpc-web+json",
@@ -248,7 +307,7 @@ class C12(Prop):
                "application/", "application", "text/plain", "", "Application/proto", "application/proto; charset=utf-8"]
         for _ in range(n):
             seq = []
-            names = [rng.choice(["t", "A/b", "x y"]) for _ in range(2)]
+            names = [pick_name() for _ in range(2)]
             for _ in range(rng.randint(1, 4)):
                 v, s, c, z, t = rng.randrange(3), rng.randrange(7), rng.randrange(2), rng.randrange(6), rng.randrange(3)
                 r = render(v, s, c, z, t)
@@ -312,7 +371,9 @@ class C12(Prop):
                         r["cto"] = [str(rng.randrange(0, 10 ** rng.randint(1, 11)))]
                         r["gto"] = [str(rng.randrange(0, 10 ** rng.randint(1, 9))) + rng.choice(UNITS)]
                 seq.append(req_sx(r))
-            yield ["c12.seq", seq]
+            yield seq
+
+    def gen_seq_targeted(self, rng, tier):
         # targeted sequences: n-fold repeat of the same test, interleaved with another name
         base = req_sx(expect(render(1, 1, 0, 0, 0), "rep", 1, 0, 0, 0, 0, 0))
         other = req_sx(expect(render(1, 1, 0, 0, 0), "other", 1, 0, 0, 0, 0, 0))
@@ -577,6 +638,8 @@ class C12(Prop):
             yield ["c12.render", rng.randrange(N_ACTUAL), e]
         yield from self.gen_timeouts(rng, tier)
         yield from self.gen_seq(rng, tier)
+        yield from self.gen_seq_targeted(rng, tier)
+        yield from self.gen_print(rng, tier)
         yield from self.gen_events(rng, tier)
         yield from self.gen_wire(rng, tier)
         yield from self.gen_live(rng, tier)
